@@ -310,11 +310,49 @@ def gen_view(g: Gen, c: Contract):
     return {'self': view, 'head': head}
 
 
+def gen_branch_regions(g: Gen, c: Contract):
+    r = g.rng
+    for _ in range(20):
+        scfg = g.scfg(with_be=0.1, ext=0.1)
+        cands = [k for k, b in scfg.graph.items() if len(b.jump_targets) >= 2 and all(t in scfg.graph for t in b.jump_targets)]
+        if cands:
+            break
+    keys = list(scfg.graph)
+    begin = r.choice(cands) if cands else r.choice(keys)
+    return {'scfg': scfg, 'begin': begin, 'end': r.choice(keys)}
+
+
+def gen_head_blocks(g: Gen, c: Contract):
+    """begin on (or one step off) the single-successor chain that starts at the head; never an endless chain"""
+    r = g.rng
+    scfg = g.scfg(with_be=0.05, ext=0.2)
+    keys = list(scfg.graph)
+    heads = [k for k in keys if not any(k in b.jump_targets for b in scfg.graph.values())]
+    if len(heads) != 1:
+        # make the first key the head
+        h = keys[0]
+        for k in keys:
+            b = scfg.graph[k]
+            if not isinstance(b, g.bb.SyntheticBranch):
+                scfg.graph[k] = g.bb.BasicBlock(name=k, _jump_targets=tuple(t for t in b._jump_targets if t != h), backedges=())
+        heads = [k for k in keys if not any(k in b.jump_targets for b in scfg.graph.values())]
+    chain, cur = [], heads[0] if heads else keys[0]
+    while cur in scfg.graph and cur not in chain and len(chain) <= len(keys):
+        chain.append(cur)
+        jt = scfg.graph[cur].jump_targets
+        if len(jt) != 1:
+            break
+        cur = jt[0]
+    closed = cur in chain and len(scfg.graph[chain[-1]].jump_targets) == 1     # the chain runs into itself: begin must be on it
+    pool = list(chain) + ([] if closed else [r.choice(keys)])
+    return {'scfg': scfg, 'begin': r.choice(pool)}
+
+
 def gen_scfg_only(g: Gen, c: Contract):
     return {'scfg': g.scfg(with_be=0.15, ext=0.4)}
 
 
-GENERATORS = {'view': gen_view, 'scfg_only': gen_scfg_only, 'dom_tables': gen_dom_tables, 'stream': gen_stream, 'flowinfo': gen_flowinfo, 'block_bcmap': gen_block_bcmap, 'namegen': gen_namegen, 'insert_ctrl': gen_insert_ctrl, 'tails_exits': gen_tails_exits, 'graph_and_pair': gen_graph_and_pair, 'graph_and_subset': gen_graph_and_subset, 'insert': gen_insert, 'branch_replace': gen_branch_replace}
+GENERATORS = {'head_blocks': gen_head_blocks, 'branch_regions': gen_branch_regions, 'view': gen_view, 'scfg_only': gen_scfg_only, 'dom_tables': gen_dom_tables, 'stream': gen_stream, 'flowinfo': gen_flowinfo, 'block_bcmap': gen_block_bcmap, 'namegen': gen_namegen, 'insert_ctrl': gen_insert_ctrl, 'tails_exits': gen_tails_exits, 'graph_and_pair': gen_graph_and_pair, 'graph_and_subset': gen_graph_and_subset, 'insert': gen_insert, 'branch_replace': gen_branch_replace}
 
 
 def gen_args(g: Gen, c: Contract):
